@@ -355,6 +355,7 @@ theorem solve_kstepN {S : Solver α} {st : Settings α} {r : SolveResult α} (h 
   unfold Solver.solve at h
   obtain ⟨L, hL, h⟩ := bind_ok_inv h
   obtain ⟨p, hp, h⟩ := bind_ok_inv h
+  obtain ⟨dN, hdN, h⟩ := bind_ok_inv h
   cases h
   unfold finish at hp
   obtain ⟨u, hu, hp⟩ := bind_ok_inv hp
